@@ -23,7 +23,7 @@ for sid in seeds:
     json.dump(cache, open(cache_path, "w"), indent=1, sort_keys=True)
 with open(os.path.join(V, "seeded", "RESULTS.md"), "w") as f:
     f.write("# Seeded regressions (from independent sub-agents) vs. the quick tier of the property's own check\n\n"
-            "Waves: -1/-2 first, -3/-4 second, -5/-6 third, -7/-8 fourth, -9/-10 fifth, -11/-12 sixth, -13/-14 seventh, -15/-16 eighth, -17/-18 ninth, -19/-20 tenth, -21/-22 eleventh. MISSED rows are discussed in DESIGN.md 8.5.\n\n"
+            "Waves: -1/-2 first, -3/-4 second, -5/-6 third, -7/-8 fourth, -9/-10 fifth, -11/-12 sixth, -13/-14 seventh, -15/-16 eighth, -17/-18 ninth, -19/-20 tenth, -21/-22 eleventh, -23 twelfth. MISSED rows are discussed in DESIGN.md 8.5.\n\n"
             "| seed | check | result | finding keys (first 3) |\n|---|---|---|---|\n")
     for sid in sorted(cache):
         f.write("| " + sid + " | " + " | ".join(cache[sid]) + " |\n")
